@@ -6,9 +6,8 @@ use crate::refspec;
 use serde_json::json;
 use std::collections::BTreeSet;
 use unic_langid_impl::subtags::{Language, Region, Script};
-use unic_langid_impl::verif_hooks as hk;
 
-type Val = (Option<u64>, Option<u32>, Option<u32>);
+type Val = crate::hooktab::NVal;
 
 fn dec64(x: u64) -> Result<String, String> {
     let b = x.to_le_bytes();
@@ -18,8 +17,11 @@ fn dec64(x: u64) -> Result<String, String> {
     }
     String::from_utf8(b[..n].to_vec()).map_err(|_| format!("{:#x}: not ASCII", x))
 }
-fn dec32(x: u32) -> Result<String, String> {
-    let b = x.to_le_bytes();
+fn dec32(x: u64) -> Result<String, String> {
+    if x > u32::MAX as u64 {
+        return Err(format!("{:#x}: does not fit the 32-bit integer form of a script / region subtag", x));
+    }
+    let b = (x as u32).to_le_bytes();
     let n = b.iter().position(|c| *c == 0).unwrap_or(4);
     if b[n..].iter().any(|c| *c != 0) {
         return Err(format!("{:#x}: non-zero byte above the terminator", x));
@@ -34,7 +36,7 @@ fn lang_ok(x: u64) -> Result<String, String> {
         Err(format!("{:?} is not a well-formed lower-case language subtag", s))
     }
 }
-fn script_ok(x: u32) -> Result<String, String> {
+fn script_ok(x: u64) -> Result<String, String> {
     let s = dec32(x)?;
     if refspec::is_script(s.as_bytes()) && s == refspec::title(s.as_bytes()) {
         Ok(s)
@@ -42,7 +44,7 @@ fn script_ok(x: u32) -> Result<String, String> {
         Err(format!("{:?} is not a well-formed title-case script subtag", s))
     }
 }
-fn region_ok(x: u32) -> Result<String, String> {
+fn region_ok(x: u64) -> Result<String, String> {
     let s = dec32(x)?;
     if refspec::is_region(s.as_bytes()) && s == s.to_ascii_uppercase() {
         Ok(s)
@@ -93,7 +95,7 @@ impl<'a> Walk<'a> {
             None => None,
             Some(x) => match script_ok(x) {
                 Ok(s) => {
-                    let t = unsafe { Script::from_raw_unchecked(x) };
+                    let t = unsafe { Script::from_raw_unchecked(x as u32) };
                     self.unsafe_calls += 1;
                     if t.as_str() != s || Script::from_bytes(s.as_bytes()) != Ok(t) {
                         self.bad("raw-roundtrip", table, row, format!("Script::from_raw_unchecked({}) reads as {:?}, bytes decode to {:?}", x, t.as_str(), s));
@@ -111,7 +113,7 @@ impl<'a> Walk<'a> {
             None => None,
             Some(x) => match region_ok(x) {
                 Ok(s) => {
-                    let t = unsafe { Region::from_raw_unchecked(x) };
+                    let t = unsafe { Region::from_raw_unchecked(x as u32) };
                     self.unsafe_calls += 1;
                     if t.as_str() != s || Region::from_bytes(s.as_bytes()) != Ok(t) {
                         self.bad("raw-roundtrip", table, row, format!("Region::from_raw_unchecked({}) reads as {:?}, bytes decode to {:?}", x, t.as_str(), s));
@@ -146,10 +148,10 @@ impl<'a> Walk<'a> {
             }
         }
     }
-    fn key_s(&mut self, table: &str, row: usize, x: u32) -> Option<String> {
+    fn key_s(&mut self, table: &str, row: usize, x: u64) -> Option<String> {
         match script_ok(x) {
             Ok(s) => {
-                let t = unsafe { Script::from_raw_unchecked(x) };
+                let t = unsafe { Script::from_raw_unchecked(x as u32) };
                 self.unsafe_calls += 1;
                 if t.as_str() != s {
                     self.bad("raw-roundtrip", table, row, format!("key script {} reads as {:?} / {:?}", x, t.as_str(), s));
@@ -162,10 +164,10 @@ impl<'a> Walk<'a> {
             }
         }
     }
-    fn key_r(&mut self, table: &str, row: usize, x: u32) -> Option<String> {
+    fn key_r(&mut self, table: &str, row: usize, x: u64) -> Option<String> {
         match region_ok(x) {
             Ok(s) => {
-                let t = unsafe { Region::from_raw_unchecked(x) };
+                let t = unsafe { Region::from_raw_unchecked(x as u32) };
                 self.unsafe_calls += 1;
                 if t.as_str() != s {
                     self.bad("raw-roundtrip", table, row, format!("key region {} reads as {:?} / {:?}", x, t.as_str(), s));
@@ -199,6 +201,7 @@ fn fmt_val(t: &Triple) -> String {
 /// Lean walk for the UB interpreter: every stored integer of this shard's rows goes through the
 /// matching unchecked constructor and is read back (an out-of-range byte is UB and reported).
 fn miri_walk(ctx: &mut Ctx) {
+    let tb = crate::hooktab::load();
     let (sh, n) = (ctx.shard, ctx.nshards);
     let mut calls = 0u64;
     let mut bad = 0u64;
@@ -214,14 +217,14 @@ fn miri_walk(ctx: &mut Ctx) {
             }
         }
         if let Some(x) = v.1 {
-            let t = unsafe { Script::from_raw_unchecked(x) };
+            let t = unsafe { Script::from_raw_unchecked(x as u32) };
             calls += 1;
             if Script::from_bytes(t.as_str().as_bytes()) != Ok(t) {
                 bad += 1;
             }
         }
         if let Some(x) = v.2 {
-            let t = unsafe { Region::from_raw_unchecked(x) };
+            let t = unsafe { Region::from_raw_unchecked(x as u32) };
             calls += 1;
             if Region::from_bytes(t.as_str().as_bytes()) != Ok(t) {
                 bad += 1;
@@ -229,42 +232,42 @@ fn miri_walk(ctx: &mut Ctx) {
         }
     };
     let mut rows = 0u64;
-    for (i, (k, v)) in hk::LANG_ONLY.iter().enumerate() {
+    for (i, (k, v)) in tb.lang_only.iter().enumerate() {
         if i % n == sh {
             val(&(Some(*k), None, None));
             val(v);
             rows += 1;
         }
     }
-    for (i, (k, k2, v)) in hk::LANG_REGION.iter().enumerate() {
+    for (i, (k, k2, v)) in tb.lang_region.iter().enumerate() {
         if i % n == sh {
             val(&(Some(*k), None, Some(*k2)));
             val(v);
             rows += 1;
         }
     }
-    for (i, (k, k2, v)) in hk::LANG_SCRIPT.iter().enumerate() {
+    for (i, (k, k2, v)) in tb.lang_script.iter().enumerate() {
         if i % n == sh {
             val(&(Some(*k), Some(*k2), None));
             val(v);
             rows += 1;
         }
     }
-    for (i, (k, k2, v)) in hk::SCRIPT_REGION.iter().enumerate() {
+    for (i, (k, k2, v)) in tb.script_region.iter().enumerate() {
         if i % n == sh {
             val(&(None, Some(*k), Some(*k2)));
             val(v);
             rows += 1;
         }
     }
-    for (i, (k, v)) in hk::SCRIPT_ONLY.iter().enumerate() {
+    for (i, (k, v)) in tb.script_only.iter().enumerate() {
         if i % n == sh {
             val(&(None, Some(*k), None));
             val(v);
             rows += 1;
         }
     }
-    for (i, (k, v)) in hk::REGION_ONLY.iter().enumerate() {
+    for (i, (k, v)) in tb.region_only.iter().enumerate() {
         if i % n == sh {
             val(&(None, None, Some(*k)));
             val(v);
@@ -272,11 +275,11 @@ fn miri_walk(ctx: &mut Ctx) {
         }
     }
     if sh == 0 {
-        for x in hk::SCRIPTS_CHARACTER_DIRECTION_LTR.iter().chain(hk::SCRIPTS_CHARACTER_DIRECTION_RTL.iter()).chain(hk::SCRIPTS_CHARACTER_DIRECTION_TTB.iter()) {
+        for x in tb.dir_ltr.iter().chain(tb.dir_rtl.iter()).chain(tb.dir_ttb.iter()) {
             val(&(None, Some(*x), None));
             rows += 1;
         }
-        for x in hk::LANGS_CHARACTER_DIRECTION_RTL.iter() {
+        for x in tb.rtl_langs.iter() {
             val(&(Some(*x), None, None));
             rows += 1;
         }
@@ -299,6 +302,7 @@ pub fn run_c18(ctx: &mut Ctx) {
     if ctx.shard != 0 {
         return;
     }
+    let tb = crate::hooktab::load();
     let mut rows: Vec<(String, String, &'static str)> = vec![]; // (key, value, table)
     let mut w = Walk { ctx, unsafe_calls: 0 };
     // "strictly increasing in the integer key order that the lookup's binary search uses": the walker cannot see the
@@ -344,49 +348,49 @@ pub fn run_c18(ctx: &mut Ctx) {
             }
         }};
     }
-    order!("LANG_ONLY", hk::LANG_ONLY, |r: &(u64, Val)| r.0, |r: &(u64, Val)| r.0.swap_bytes());
-    order!("LANG_REGION", hk::LANG_REGION, |r: &(u64, u32, Val)| (r.0, r.1), |r: &(u64, u32, Val)| (r.0.swap_bytes(), r.1.swap_bytes()));
-    order!("LANG_SCRIPT", hk::LANG_SCRIPT, |r: &(u64, u32, Val)| (r.0, r.1), |r: &(u64, u32, Val)| (r.0.swap_bytes(), r.1.swap_bytes()));
-    order!("SCRIPT_REGION", hk::SCRIPT_REGION, |r: &(u32, u32, Val)| (r.0, r.1), |r: &(u32, u32, Val)| (r.0.swap_bytes(), r.1.swap_bytes()));
-    order!("SCRIPT_ONLY", hk::SCRIPT_ONLY, |r: &(u32, Val)| r.0, |r: &(u32, Val)| r.0.swap_bytes());
-    order!("REGION_ONLY", hk::REGION_ONLY, |r: &(u32, Val)| r.0, |r: &(u32, Val)| r.0.swap_bytes());
+    order!("LANG_ONLY", tb.lang_only, |r: &(u64, Val)| r.0, |r: &(u64, Val)| r.0.swap_bytes());
+    order!("LANG_REGION", tb.lang_region, |r: &(u64, u64, Val)| (r.0, r.1), |r: &(u64, u64, Val)| (r.0.swap_bytes(), r.1.swap_bytes()));
+    order!("LANG_SCRIPT", tb.lang_script, |r: &(u64, u64, Val)| (r.0, r.1), |r: &(u64, u64, Val)| (r.0.swap_bytes(), r.1.swap_bytes()));
+    order!("SCRIPT_REGION", tb.script_region, |r: &(u64, u64, Val)| (r.0, r.1), |r: &(u64, u64, Val)| (r.0.swap_bytes(), r.1.swap_bytes()));
+    order!("SCRIPT_ONLY", tb.script_only, |r: &(u64, Val)| r.0, |r: &(u64, Val)| r.0.swap_bytes());
+    order!("REGION_ONLY", tb.region_only, |r: &(u64, Val)| r.0, |r: &(u64, Val)| r.0.swap_bytes());
 
-    for (i, (k, v)) in hk::LANG_ONLY.iter().enumerate() {
+    for (i, (k, v)) in tb.lang_only.iter().enumerate() {
         let kl = w.key_l("LANG_ONLY", i, *k);
         let vv = w.value("LANG_ONLY", i, v);
         if let (Some(kl), Some(vv)) = (kl, vv) {
             rows.push((fmt_key(Some(&kl), None, None), fmt_val(&vv), "LANG_ONLY"));
         }
     }
-    for (i, (k, k2, v)) in hk::LANG_REGION.iter().enumerate() {
+    for (i, (k, k2, v)) in tb.lang_region.iter().enumerate() {
         let (a, b) = (w.key_l("LANG_REGION", i, *k), w.key_r("LANG_REGION", i, *k2));
         let vv = w.value("LANG_REGION", i, v);
         if let (Some(a), Some(b), Some(vv)) = (a, b, vv) {
             rows.push((fmt_key(Some(&a), None, Some(&b)), fmt_val(&vv), "LANG_REGION"));
         }
     }
-    for (i, (k, k2, v)) in hk::LANG_SCRIPT.iter().enumerate() {
+    for (i, (k, k2, v)) in tb.lang_script.iter().enumerate() {
         let (a, b) = (w.key_l("LANG_SCRIPT", i, *k), w.key_s("LANG_SCRIPT", i, *k2));
         let vv = w.value("LANG_SCRIPT", i, v);
         if let (Some(a), Some(b), Some(vv)) = (a, b, vv) {
             rows.push((fmt_key(Some(&a), Some(&b), None), fmt_val(&vv), "LANG_SCRIPT"));
         }
     }
-    for (i, (k, k2, v)) in hk::SCRIPT_REGION.iter().enumerate() {
+    for (i, (k, k2, v)) in tb.script_region.iter().enumerate() {
         let (a, b) = (w.key_s("SCRIPT_REGION", i, *k), w.key_r("SCRIPT_REGION", i, *k2));
         let vv = w.value("SCRIPT_REGION", i, v);
         if let (Some(a), Some(b), Some(vv)) = (a, b, vv) {
             rows.push((fmt_key(None, Some(&a), Some(&b)), fmt_val(&vv), "SCRIPT_REGION"));
         }
     }
-    for (i, (k, v)) in hk::SCRIPT_ONLY.iter().enumerate() {
+    for (i, (k, v)) in tb.script_only.iter().enumerate() {
         let a = w.key_s("SCRIPT_ONLY", i, *k);
         let vv = w.value("SCRIPT_ONLY", i, v);
         if let (Some(a), Some(vv)) = (a, vv) {
             rows.push((fmt_key(None, Some(&a), None), fmt_val(&vv), "SCRIPT_ONLY"));
         }
     }
-    for (i, (k, v)) in hk::REGION_ONLY.iter().enumerate() {
+    for (i, (k, v)) in tb.region_only.iter().enumerate() {
         let a = w.key_r("REGION_ONLY", i, *k);
         let vv = w.value("REGION_ONLY", i, v);
         if let (Some(a), Some(vv)) = (a, vv) {
@@ -396,9 +400,9 @@ pub fn run_c18(ctx: &mut Ctx) {
     // direction tables: decode, no duplicates
     let mut dir_sets: Vec<(&'static str, BTreeSet<String>)> = vec![];
     for (name, tab) in [
-        ("SCRIPTS_CHARACTER_DIRECTION_LTR", &hk::SCRIPTS_CHARACTER_DIRECTION_LTR[..]),
-        ("SCRIPTS_CHARACTER_DIRECTION_RTL", &hk::SCRIPTS_CHARACTER_DIRECTION_RTL[..]),
-        ("SCRIPTS_CHARACTER_DIRECTION_TTB", &hk::SCRIPTS_CHARACTER_DIRECTION_TTB[..]),
+        ("SCRIPTS_CHARACTER_DIRECTION_LTR", &tb.dir_ltr[..]),
+        ("SCRIPTS_CHARACTER_DIRECTION_RTL", &tb.dir_rtl[..]),
+        ("SCRIPTS_CHARACTER_DIRECTION_TTB", &tb.dir_ttb[..]),
     ] {
         let mut set = BTreeSet::new();
         for (i, x) in tab.iter().enumerate() {
@@ -413,7 +417,7 @@ pub fn run_c18(ctx: &mut Ctx) {
         dir_sets.push((name, set));
     }
     let mut rtl_langs = BTreeSet::new();
-    for (i, x) in hk::LANGS_CHARACTER_DIRECTION_RTL.iter().enumerate() {
+    for (i, x) in tb.rtl_langs.iter().enumerate() {
         w.ctx.evals += 1;
         w.ctx.count("rows");
         if let Some(s) = w.key_l("LANGS_CHARACTER_DIRECTION_RTL", i, *x) {
@@ -522,11 +526,11 @@ pub fn run_c18(ctx: &mut Ctx) {
                 ctx.add_violation("extra-row", json!({"key": k, "table": t}), json!(null), format!("table {} has a row {} -> {:?} that is not in likelySubtags.json", t, k, vs));
             }
             ctx.evals += 1;
-            if hk::CLDR_VERSION != lk.version || unic_langid_impl::likelysubtags::CLDR_VERSION != lk.version {
+            if tb.cldr_version != lk.version || unic_langid_impl::likelysubtags::CLDR_VERSION != lk.version {
                 ctx.viol_total += 1;
-                ctx.add_violation("cldr-version", json!({"advertised": hk::CLDR_VERSION}), json!(null), format!("CLDR_VERSION = {:?}, data says {:?}", hk::CLDR_VERSION, lk.version));
+                ctx.add_violation("cldr-version", json!({"advertised": tb.cldr_version}), json!(null), format!("CLDR_VERSION = {:?}, data says {:?}", tb.cldr_version, lk.version));
             }
-            ctx.extra.insert("cldr_version".into(), json!({"advertised": hk::CLDR_VERSION, "likelySubtags.json": lk.version}));
+            ctx.extra.insert("cldr_version".into(), json!({"advertised": tb.cldr_version, "likelySubtags.json": lk.version}));
         }
     }
     match DirData::load() {
